@@ -1,7 +1,8 @@
 (** C05 — packet protection round-trips, matches RFC 9001, rejects tampering.
     Only statements live here; each is closed by [exact] of a lemma proved elsewhere. *)
 From Coq Require Import List ZArith Sorted.
-From V Require Import Gen.Params PktProt.PktNum PktProt.PktNumProofs PktProt.KeyPhase PktProt.KeyPhaseProofs PktProt.KeyDerive PktProt.KeyDeriveProofs PktProt.KeyPhaseRun PktProt.KeyPhaseWindow PktProt.KeyPhaseExamples PktProt.Protect PktProt.ProtectProofs PktProt.ProtectExamples.
+From Coq Require String.
+From V Require Import Gen.Params PktProt.PktNum PktProt.PktNumProofs PktProt.KeyPhase PktProt.KeyPhaseProofs PktProt.KeyDerive PktProt.KeyDeriveProofs PktProt.KeyPhaseRun PktProt.KeyPhaseWindow PktProt.KeyPhaseSys PktProt.KeyPhaseSysProofs PktProt.KeyPhaseExamples PktProt.Sha256 PktProt.InitialKeys PktProt.InitialKeysProofs PktProt.Aes PktProt.InitialProtect PktProt.InitialProtectExamples PktProt.Retry PktProt.RetryProofs PktProt.AesProofs Lib.Hex PktProt.Protect PktProt.ProtectProofs PktProt.ProtectExamples.
 Import ListNotations.
 Open Scope Z_scope.
 
@@ -189,3 +190,150 @@ Theorem C05_key_update_derivation_rfc :
     hp_key expand_label v2 keyLen ts = expand_label ts lh keyLen.
 Proof. exact derivation_rfc. Qed.
 Print Assumptions C05_key_update_derivation_rfc.
+
+(** (c) Two-endpoint closure.  Two conformant updatableAEAD endpoints (the KeyPhase model,
+    twice) and a network in which every packet ever sealed may be delivered any number of
+    times, in any order, or never; ACKs travel inside packets and are processed after a
+    successful Open; each side may call KeyPhase() (and thereby initiate an update whenever
+    the code allows it), Seal, and SetHandshakeConfirmed at any time.  For every AEAD that
+    opens what it sealed and fails under a different key, for every update-interval
+    configuration and EVERY interleaving [ops], in the state reached:
+    - no packet in flight is more than one generation ahead of its receiver;
+    - a packet whose generation is the receiver's current one, or the next one, or the
+      previous one while the previous keys are still kept (not yet dropped by the 3*PTO
+      timer), opens to exactly its plaintext;
+    - whatever opens, opens to the packet's own plaintext, and the ACK it carries is never
+      answered with KEY_UPDATE_ERROR. *)
+Theorem C05_keyphase_histories :
+  forall (ctext ptext adata : Type)
+         (aead_seal : key -> Z -> adata -> ptext -> ctext)
+         (aead_open : key -> Z -> adata -> ctext -> option ptext),
+    (forall k n ad p, aead_open k n ad (aead_seal k n ad p) = Some p) ->
+    (forall k k' n ad p, k <> k' -> aead_open k n ad (aead_seal k' n ad p) = None) ->
+    forall cfg lim n0 ops, (forall x, 0 <= n0 x) ->
+      let s := srun ctext ptext adata aead_seal aead_open cfg (sinit ptext adata lim n0) ops in
+      forall i p now pto3, nth_error (sent s) i = Some p ->
+        let R := ep (sd s (negb (p_from p))) in
+        let r := keyPhase R in
+        let res := ua_open ctext ptext adata aead_open R now pto3 (p_pn p) (p_gen p mod 2) (p_ad p)
+                           (p_ct ctext ptext adata aead_seal p) in
+        p_gen p <= r + 1 /\
+        ((p_gen p = r \/ p_gen p = r + 1 \/ (p_gen p = r - 1 /\ prevRcvAEAD R <> None /\ dropped_now R now = false)) ->
+         fst res = OpenOK (p_pt p)) /\
+        (forall pt', fst res = OpenOK pt' ->
+           pt' = p_pt p /\ (0 <= p_ack p -> fst (ua_set_largest_acked (snd res) (p_ack p)) = false)).
+Proof. exact keyphase_histories. Qed.
+Print Assumptions C05_keyphase_histories.
+
+Example C05_keyphase_histories_nonvacuous :
+  (forall k n ad p, sym_open k n ad (sym_seal k n ad p) = Some p) /\
+  (forall k k' n ad p, k <> k' -> sym_open k n ad (sym_seal k' n ad p) = None) /\
+  (exists p, nth_error (sent sys_example) 1 = Some p /\ p_from p = false /\
+             p_gen p = keyPhase (ep (sd sys_example true)) - 1 /\
+             prevRcvAEAD (ep (sd sys_example true)) <> None /\ dropped_now (ep (sd sys_example true)) 20 = false) /\
+  (exists p, nth_error (sent sys_example) 2 = Some p /\ p_from p = true /\
+             p_gen p = keyPhase (ep (sd sys_example false)) + 1).
+Proof. exact (conj sym_open_seal (conj sym_open_wrong_key sys_example_ok)). Qed.
+Print Assumptions C05_keyphase_histories_nonvacuous.
+
+Import Coq.Strings.String. (* string literals below; placed here because String.length would shadow List.length above *)
+
+(** (b) Initial keys, concretely.  With SHA-256, HMAC and HKDF written in Gallina (Sha256.v,
+    no code shared with /repo): the code's derivation (salts and "client in"/"server in"
+    taken from the code through Gen/Params.v) IS
+      HKDF-Expand-Label(HKDF-Expand-Label(HKDF-Extract(salt_v, dcid), "client in"|"server in", "", 32), key|iv|hp label of v, ...)
+    with the salts of RFC 9001 5.2 / RFC 9369 3.3.1, for every connection ID and both
+    versions; an edited salt or label breaks this proof. *)
+Theorem C05_initial_keys_rfc :
+  forall (v2 client : bool) (dcid : list Z),
+    let initial := hkdf_extract (rfc_salt v2) dcid in
+    let s := expand_label initial (rfc_side_label client) 32 in   (* "client in" / "server in" *)
+    let '(lk, li, lh, _) := rfc_labels v2 in
+    initial_secret v2 client dcid = s /\
+    initial_keys v2 client dcid = (expand_label s lk 16, expand_label s li 12, expand_label s lh 16).
+Proof. exact initial_keys_rfc. Qed.
+Print Assumptions C05_initial_keys_rfc.
+
+(** RFC 9001 Appendix A.1 (v1) and RFC 9369 Appendix A.1 (v2), DCID 0x8394c8f03e515708:
+    initial secret, client/server secrets, keys, IVs and header-protection keys, computed by
+    the Gallina SHA-256/HMAC/HKDF inside Coq. *)
+Example C05_rfc9001_A1 :
+  hkdf_extract (rfc_salt false) rfc_dcid = hx "7db5df06e7a69e432496adedb00851923595221596ae2ae9fb8115c1e9ed0a44" /\
+  initial_secret false true rfc_dcid = hx "c00cf151ca5be075ed0ebfb5c80323c42d6b7db67881289af4008f1f6c357aea" /\
+  initial_keys false true rfc_dcid =
+    (hx "1f369613dd76d5467730efcbe3b1a22d", hx "fa044b2f42a3fd3b46fb255c", hx "9f50449e04a0e810283a1e9933adedd2") /\
+  initial_secret false false rfc_dcid = hx "3c199828fd139efd216c155ad844cc81fb82fa8d7446fa7d78be803acdda951b" /\
+  initial_keys false false rfc_dcid =
+    (hx "cf3a5331653c364c88f0f379b6067e37", hx "0ac1493ca1905853b0bba03e", hx "c206b8d9b9f0f37644430b490eeaa314").
+Proof. exact rfc9001_A1. Qed.
+Print Assumptions C05_rfc9001_A1.
+
+Example C05_rfc9369_A1 :
+  initial_secret true true rfc_dcid = hx "14ec9d6eb9fd7af83bf5a668bc17a7e283766aade7ecd0891f70f9ff7f4bf47b" /\
+  initial_keys true true rfc_dcid =
+    (hx "8b1a0bc121284290a29e0971b5cd045d", hx "91f73e2351d8fa91660e909f", hx "45b95e15235d6f45a6b19cbcb0294ba9") /\
+  initial_secret true false rfc_dcid = hx "0263db1782731bf4588e7e4d93b7463907cb8cd8200b5da55a8bd488eafc37c1" /\
+  initial_keys true false rfc_dcid =
+    (hx "82db637861d55e1d011f19ea71d5d2a7", hx "dd13c276499c0249d3310652", hx "edf6d05c83121201b436e16877593c3a").
+Proof. exact rfc9369_A1. Qed.
+Print Assumptions C05_rfc9369_A1.
+
+(** RFC 9001 A.2 / A.3 and RFC 9369 A.2 / A.3: the protected client Initial (1200 bytes) and
+    server Initial are reproduced bit for bit inside Coq — HKDF key derivation, AES-128-GCM
+    with nonce = IV xor packet number, AES-ECB header-protection mask with the sample at
+    pn_offset + 4, all in Gallina, instantiating the byte-level Protect model — and opened
+    again by the model's unpacker.  (Header, payload and packet bytes: InitialProtectExamples.v.) *)
+Example C05_rfc9001_A2_client_initial :
+  initial_protect false true rfc_dcid client_initial_version1_hdr client_initial_version1_payload 2 4 = client_initial_version1_packet /\
+  initial_unprotect false true rfc_dcid 18 0 client_initial_version1_packet =
+    UOk (nth 0 client_initial_version1_hdr 0) 2 4 0 client_initial_version1_payload.
+Proof. exact client_initial_version1_ok. Qed.
+Print Assumptions C05_rfc9001_A2_client_initial.
+
+Example C05_rfc9001_A3_server_initial :
+  initial_protect false false rfc_dcid server_initial_version1_hdr server_initial_version1_payload 1 2 = server_initial_version1_packet /\
+  initial_unprotect false false rfc_dcid 18 0 server_initial_version1_packet =
+    UOk (nth 0 server_initial_version1_hdr 0) 1 2 0 server_initial_version1_payload.
+Proof. exact server_initial_version1_ok. Qed.
+Print Assumptions C05_rfc9001_A3_server_initial.
+
+Example C05_rfc9369_A2_client_initial :
+  initial_protect true true rfc_dcid client_initial_version2_hdr client_initial_version2_payload 2 4 = client_initial_version2_packet /\
+  initial_unprotect true true rfc_dcid 18 0 client_initial_version2_packet =
+    UOk (nth 0 client_initial_version2_hdr 0) 2 4 0 client_initial_version2_payload.
+Proof. exact client_initial_version2_ok. Qed.
+Print Assumptions C05_rfc9369_A2_client_initial.
+
+Example C05_rfc9369_A3_server_initial :
+  initial_protect true false rfc_dcid server_initial_version2_hdr server_initial_version2_payload 1 2 = server_initial_version2_packet /\
+  initial_unprotect true false rfc_dcid 18 0 server_initial_version2_packet =
+    UOk (nth 0 server_initial_version2_hdr 0) 1 2 0 server_initial_version2_payload.
+Proof. exact server_initial_version2_ok. Qed.
+Print Assumptions C05_rfc9369_A3_server_initial.
+
+(** Retry integrity tag (RFC 9001 5.8 / RFC 9369 3.3.3) on the same Gallina AES-128-GCM: the
+    code's nonces are the RFC's, and the Appendix A.4 Retry packets get the RFC's tags. *)
+Example C05_retry_rfc :
+  (retry_nonce false = hx "461599d35d632bf2239825bb" /\ retry_nonce true = hx "d86969bc2d7c6d9990efb04a") /\
+  retry_tag false rfc_dcid (hx "ff000000010008f067a5502a4262b5746f6b656e") = hx "04a265ba2eff4d829058fb3f0f2496ba" /\
+  retry_tag true rfc_dcid (hx "cf6b3343cf0008f067a5502a4262b5746f6b656e") = hx "c8646ce8bfe33952d955543665dcc7b6".
+Proof. exact (conj retry_nonce_rfc retry_rfc_A4). Qed.
+Print Assumptions C05_retry_rfc.
+
+(** (a) for Initial packets with NO cryptographic hypothesis: the Gallina AES-128-GCM is proved
+    to open what it seals (gcm_open_seal), the derived keys have the right sizes, hence for
+    every version, side, connection ID, long-header first byte / prefix, packet number length
+    1..4, packet number inside the receiver's window and non-empty payload with
+    pnLen + |payload| >= 4, the concrete protection (HKDF-derived keys, AES-128-GCM,
+    AES-ECB header protection) round-trips.  (Instances: the RFC packets above.) *)
+Theorem C05_initial_protect_roundtrip :
+  forall (v2 client : bool) (dcid : list Z) first mid pn pnLen payload largest,
+    (1 <= pnLen <= 4)%nat -> wf_first true first pnLen 0 ->
+    0 <= pn < 2 ^ 62 -> -1 <= largest ->
+    largest + 1 - 2 ^ (Z.of_nat pnLen * 8) / 2 < pn <= largest + 1 + 2 ^ (Z.of_nat pnLen * 8) / 2 ->
+    payload <> [] -> (4 <= pnLen + List.length payload)%nat ->
+    initial_unprotect v2 client dcid (1 + List.length mid) largest
+      (initial_protect v2 client dcid (mk_header first mid pnLen pn) payload pn pnLen)
+    = UOk first pn (Z.of_nat pnLen) 0 payload.
+Proof. exact initial_roundtrip. Qed.
+Print Assumptions C05_initial_protect_roundtrip.
